@@ -211,6 +211,12 @@ func (r *Run) Finish() int {
 	newV := 0
 	var knownHit []string
 	replayDir := filepath.Join(Root(), "replays", r.ID)
+	// replay files describe this run only: drop what an earlier run left behind
+	if old, _ := filepath.Glob(filepath.Join(replayDir, "*.json")); len(old) > 0 {
+		for _, f := range old {
+			os.Remove(f)
+		}
+	}
 	for _, s := range sigs {
 		v := r.violations[s]
 		if f, ok := known[s]; ok {
